@@ -310,10 +310,10 @@ theorem grideval_get_eq_flat_sum (dims : List (Dim α)) (coef : Int → α) (coo
     ∃ nd, gridEval dims coef coords = some nd ∧
       ∀ g xs, gridPoint coords g = some xs →
         nd.get g = ∑ q ∈ Finset.range (PsV.Permute.prodL (dims.map (·.naxes))),
-          coef (q : Int) * basisProd dims xs (PsV.Permute.digits (dims.map (·.naxes)) q) := by
+          coef (q : Int) * gridBasisProd dims xs (PsV.Permute.digits (dims.map (·.naxes)) q) := by
   obtain ⟨nd, h1, h2, _, h4⟩ := grideval_eq_spec dims coef coords hwf hlen
   refine ⟨nd, h1, fun g xs hg => ?_⟩
-  have hx : xs.length = dims.length := by rw [gridPoint_length coords g xs hg, hlen]
+  have hx : xs.length = dims.length := by rw [gridPoint_length_grid coords g xs hg, hlen]
   rw [h4 g xs hg, gridSpec_flat dims coef xs hwf.ne hwf.strides hx]
 
 /-- **Pattern of `slicemultiply`** (the symbolic product of `ssmult`): the result lists `idx` iff some
@@ -331,7 +331,7 @@ theorem grideval_lists_iff (dims : List (Dim α)) (coef : Int → α) (coords : 
     ∃ nd, gridEval dims coef coords = some nd ∧
       ∀ g xs, gridPoint coords g = some xs →
         (nd.Lists g ↔ ∃ c, IdxIn c (dims.map (·.naxes)) ∧
-          coef (posL dims c : Nat) * basisProd dims xs c ≠ 0) :=
+          coef (posL dims c : Nat) * gridBasisProd dims xs c ≠ 0) :=
   gridEval_lists dims coef coords hwf hlen
 
 end
@@ -360,7 +360,7 @@ theorem grideval_get_eq_ndsplineeval (T : Table α) (coords : List (List α)) (h
   obtain ⟨nd, h1, h2, h3⟩ := grideval_get_eq_pointwise_inside T.dims T.coef coords hg
     (fun d hd => (hT.dims d hd).mono) hlen
   refine ⟨nd, h1, h2, fun g xs cs hgp hsc hx => ?_⟩
-  have hxl : T.dims.length = xs.length := by rw [gridPoint_length coords g xs hgp, hlen]
+  have hxl : T.dims.length = xs.length := by rw [gridPoint_length_grid coords g xs hgp, hlen]
   have hnd : ∀ (ds : List (Dim α)) (ys : List α),
       List.Forall₂ (fun d x => x < d.knots ((d.nknots : Int) - 1) ∧ NonDegenerate d x) ds ys →
       AllNonDegenerate ds ys := by
@@ -562,9 +562,9 @@ example :
     GridTableWF degTable.dims ∧ ([[2]] : List (List Rat)).length = degTable.dims.length ∧
     gridPoint ([[2]] : List (List Rat)) [0] = some [2] ∧
     ∃ c, IdxIn c (degTable.dims.map (·.naxes)) ∧
-      degTable.coef (posL degTable.dims c : Nat) * basisProd degTable.dims [2] c ≠ 0 := by
+      degTable.coef (posL degTable.dims c : Nat) * gridBasisProd degTable.dims [2] c ≠ 0 := by
   refine ⟨degTable_gridWF, rfl, rfl, [2], ⟨rfl, by decide⟩, ?_⟩
-  simp [basisProd, posL, degTable, PsV.Bind, indR]
+  simp [gridBasisProd, posL, degTable, PsV.Bind, indR]
   norm_num
 
 /-- Non-vacuity of `grideval_get_eq_ndsplineeval`: C01's example table (order 2, knots 0..6, stride 1),
